@@ -107,6 +107,9 @@ Qed.
 Lemma ParseUint10_alpha s bits v : ParseUint s 10 bits = inl v -> first_invalid EncHash s = None.
 Proof. intros H. apply first_invalid_none. apply is_digits_alpha. eapply ParseUint10_digits; eauto. Qed.
 
+Lemma in_alpha_split n e s : in_alpha e s = in_alpha e (firstn n s) && in_alpha e (skipn n s).
+Proof. rewrite <- in_alpha_app, firstn_skipn. reflexivity. Qed.
+
 (* [n]byte conversion of a text of the right length *)
 Lemma arr_exact (s : bytes) n : length s = n -> firstn n (s ++ repeat 0 n) = s.
 Proof. intros <-. rewrite firstn_app, Nat.sub_diag, firstn_all. cbn [firstn]. apply app_nil_r. Qed.
@@ -239,6 +242,11 @@ Qed.
 (* ------------------------------------------------------------------ *)
 (* 5. symbolic evaluation of Unmarshal on a fragment list of known shape *)
 (* ------------------------------------------------------------------ *)
+Lemma set_frag_0 a l f : set_frag (a :: l) 0 f = f :: l.
+Proof. reflexivity. Qed.
+Lemma set_frag_S a l i f : set_frag (a :: l) (S i) f = a :: set_frag l i f.
+Proof. reflexivity. Qed.
+
 (* the prefix assignment is a closed term: compute it *)
 Ltac eval_prefix :=
   unfold unmarshal_tree; cbn [ti_prefix prefix ti_fields ti_numreq frags];
@@ -251,6 +259,7 @@ Ltac atom_step :=
   | H : first_invalid ?e ?t = _ |- context [first_invalid ?e ?t] => rewrite H
   | H : ParseUint ?s ?b ?n = _ |- context [ParseUint ?s ?b ?n] => rewrite H
   | H : has_prefix ?a ?b = _ |- context [has_prefix ?a ?b] => rewrite H
+  | H : is_digits ?a = _ |- context [is_digits ?a] => rewrite H
   | |- context [Z.leb ?a ?b] =>
     let E := fresh "E" in destruct (Z.leb a b) eqn:E; [apply Z.leb_le in E | apply Z.leb_gt in E]; try (exfalso; lia)
   | |- context [Z.ltb ?a ?b] =>
@@ -260,9 +269,13 @@ Ltac atom_step :=
   | |- context [has_prefix ?a ?b] => destruct (has_prefix a b) eqn:?
   | |- context [match first_invalid ?e ?t with _ => _ end] => destruct (first_invalid e t) eqn:?
   | |- context [match ParseUint ?s ?b ?n with _ => _ end] => destruct (ParseUint s b n) eqn:?
+  | |- context [is_digits ?s] => destruct (is_digits s) eqn:?
   | |- context [nil_b ?a] => destruct a
+  | |- context [length (skipn ?n ?l)] => rewrite (skipn_length n l)
+  | |- context [Pos.to_nat ?p] => let n := eval compute in (Pos.to_nat p) in change (Pos.to_nat p) with n
   end.
-Ltac crunch := repeat first [ progress cbn | progress unfold convert, assign, trim_prefix | progress unfold equals | atom_step ].
+Ltac crunch := repeat first [ progress cbn | progress unfold convert, assign, trim_prefix | progress unfold equals
+                            | rewrite set_frag_S | rewrite set_frag_0 | atom_step ].
 
 (* split the hypothesis about the fragment texts: a comma, or the list of pieces *)
 Ltac split_frags HF body :=
@@ -278,3 +291,11 @@ Ltac uint_alpha :=
     rewrite (ParseUint10_alpha s b v H1) in H2; discriminate H2
   end.
 Ltac arr_fix := rewrite ?arr_exactZ by (cbn; lia).
+
+Ltac digits_alpha :=
+  match goal with
+  | H1 : is_digits ?s = true, H2 : first_invalid EncHash ?s = Some _ |- _ =>
+    apply is_digits_alpha in H1; apply first_invalid_none in H1; rewrite H1 in H2; discriminate H2
+  | H1 : is_digits ?s = false, H2 : ParseUint ?s 10 ?b = inl ?v |- _ =>
+    rewrite (ParseUint10_digits s b v H2) in H1; discriminate H1
+  end.
